@@ -114,6 +114,7 @@ func parseIntervalMs(s string) int64 {
 type accepted struct {
 	c       *canon
 	outside bool
+	src     *am
 }
 
 // ingest renders ms in format f, runs the production parser and checks that the batch holds
@@ -127,7 +128,7 @@ func ingest(t failer, f format, ms []*am, outside []bool, jk []junk, rc *reqCtx)
 			rejects[why]++
 			continue
 		}
-		want = append(want, accepted{c, outside[i]})
+		want = append(want, accepted{c, outside[i], m})
 	}
 	batch, err := parse(f, ms, jk, rc)
 	if err != nil {
@@ -138,16 +139,17 @@ func ingest(t failer, f format, ms []*am, outside []bool, jk []junk, rc *reqCtx)
 		got = batch.Len()
 	}
 	for i := 0; i < got || i < len(want); i++ {
-		g, w := "<no row>", "<no row>"
+		g, w, src := "<no row>", "<no row>", ""
 		if i < got {
 			g = readBrokerRow(&batch.Rows()[i]).String()
 		}
 		if i < len(want) {
 			w = want[i].c.String()
+			src = fmt.Sprintf("%+v comp=%+v enriched=%v", *want[i].src, want[i].src.Comp, rc.Enriched)
 		}
 		if g != w {
-			t.Fatalf("[%s] %d metrics sent, model accepts %d (rejects %v), batch holds %d rows; first difference at row %d\n  got  %s\n  want %s",
-				f, len(ms), len(want), rejects, got, i, g, w)
+			t.Fatalf("[%s] %d metrics sent, model accepts %d (rejects %v), batch holds %d rows; first difference at row %d\n  got  %s\n  want %s\n  sent %s",
+				f, len(ms), len(want), rejects, got, i, g, w, src)
 		}
 	}
 	return batch, want, rejects
@@ -410,6 +412,7 @@ func TestFormatsAgree(t *testing.T) {
 		type outcome struct {
 			f     format
 			c     *canon // nil = rejected
+			model *canon
 			shard int
 		}
 		var outs []outcome
@@ -442,7 +445,7 @@ func TestFormatsAgree(t *testing.T) {
 			all := append(append(append([]*am{}, ms[:nb]...), &variant), ms[nb:]...)
 			batch, want, _ := ingest(t, f, all, make([]bool, len(all)), genJunk(t, len(all)), rc)
 			wc, _ := expect(&variant, rc, f)
-			o := outcome{f: f, shard: -1}
+			o := outcome{f: f, shard: -1, model: wc}
 			if wc != nil {
 				row := &batch.Rows()[pos]
 				o.c = readBrokerRow(row)
@@ -478,11 +481,13 @@ func TestFormatsAgree(t *testing.T) {
 		for i := 1; i < len(outs); i++ {
 			a, b := outs[0], outs[i]
 			sameNS := target.NS == "" // own namespace: documented to be treated differently by proto and flat
-			if (a.c == nil) != (b.c == nil) {
-				if sameNS {
-					t.Fatalf("formats disagree on acceptance: %s accepted=%v, %s accepted=%v: %+v", a.f, a.c != nil, b.f, b.c != nil, target)
-				}
+			if (a.model == nil) != (b.model == nil) {
+				// the limits are applied to what is on the wire, which two formats may render
+				// differently (client-side renaming, tag map of a line): no claim
 				continue
+			}
+			if (a.c == nil) != (b.c == nil) {
+				t.Fatalf("formats disagree on acceptance: %s accepted=%v, %s accepted=%v: %+v", a.f, a.c != nil, b.f, b.c != nil, target)
 			}
 			if a.c == nil {
 				continue
